@@ -48,7 +48,8 @@ RULE = ("one evaluation = one generated history of TZ/clock/parser events and "
         "parses of rendered datetimes; non-trivial = at least one "
         "configuration event between two parses and at least 5 judged "
         "parses; distinct = distinct SHA-1 of the full event history")
-EXPECTED_PROBES = ["year_pivot_boundary_hit", "reparse_other_config",
+EXPECTED_PROBES = ["failed_call_in_history", "year_pivot_boundary_hit",
+                   "reparse_other_config",
                    "two_digit_year", "offset_rendered", "default_from_clock",
                    "year_below_100", "input.bytes", "input.stream"]
 
@@ -67,6 +68,12 @@ CLOCKS = [946684799.0, 946684800.0, 946684801.0, 2524607999.0, 2524608000.0,
 
 def TARGET_FILES(cls):
     return ["parser/_parser.py"]
+
+
+# texts the parser must refuse (unknown word without fuzzy, a 13th month, an
+# impossible time, non-text input), used to put failed calls into histories
+JUNK = ["10/09/2003 approx.", "2003-13-45", "25:61", "not a date", "", None,
+        "Sept 31 2003 noonish", "1/2/3/4/5"]
 
 
 def gen_dt(rng):
@@ -114,7 +121,15 @@ def generate(cls, rng):
             r = rng.random()
             if r < 0.25:
                 ops.append(gen_world(rng))
-            elif r < 0.35 and ops:
+            elif r < 0.32:
+                # a call that fails, with flags: nothing of it may linger
+                ops.append(["junk", rng.choice(JUNK),
+                            rng.choice([{}, {"dayfirst": True},
+                                        {"yearfirst": True},
+                                        {"dayfirst": True,
+                                         "yearfirst": True}]),
+                            rng.choice(["module", "p0", "p1"])])
+            elif r < 0.40 and ops:
                 ops.append(["reparse", rng.randrange(0, 40)])
             else:
                 ops.append(gen_parse(rng))
@@ -346,6 +361,20 @@ def execute(cls, scenario, ctx):
                                            again=again.isoformat(),
                                            tz=env.tz, clock=env.clock.t))
                     ctx.event("reparse", text, again.isoformat())
+                elif op[0] == "junk":
+                    _, text, flags, via = op
+                    try:
+                        if via == "module":
+                            env.parser.parse(text, **flags)
+                        else:
+                            env.parsers[via].parse(text, **flags)
+                        outcome = "accepted"
+                    except (Deadlock, BudgetExceeded):
+                        raise
+                    except Exception as e:
+                        outcome = type(e).__name__
+                    ctx.probe("failed_call_in_history")
+                    ctx.event("junk", text, flags, via, outcome)
                 else:
                     env.world(op)
         except BudgetExceeded as e:
